@@ -44,18 +44,31 @@ def main():
     rows = []
     dirs = [d for d in sorted(glob.glob(os.path.join(VERIF, 'seeded', 'C*-*'))) if os.path.isdir(d)]
     rechecked = {}
-    if '--recheck' in sys.argv:
+    only = None
+    for a in sys.argv:
+        if a.startswith('--only='):
+            only = set(a[len('--only='):].split(','))
+    if '--recheck' in sys.argv or only:
         from concurrent.futures import ThreadPoolExecutor
+        todo = [d for d in dirs if only is None or os.path.basename(d) in only]
         with ThreadPoolExecutor(8) as ex:
-            for d, r in zip(dirs, ex.map(recheck, dirs)):
+            for d, r in zip(todo, ex.map(recheck, todo)):
                 rechecked[d] = r
     for d in dirs:
         name = os.path.basename(d)
         ev = json.load(open(os.path.join(d, 'eval.json')))
         what, needs = NEEDS.get(name, ['', ''])
         caught, broken = ev['caught_by'], ev['analysis_broken']
+        mp = os.path.join(d, 'meta.json')
+        if os.path.exists(mp):
+            # what the last re-check with the current engines found
+            try:
+                old_meta = json.load(open(mp))
+                caught, broken = old_meta.get('caught_by', caught), old_meta.get('analysis_broken_in', broken)
+            except ValueError:
+                pass
         note = None
-        if '--recheck' in sys.argv:
+        if d in rechecked:
             c2, b2, note = rechecked[d]
             if c2 is not None:
                 caught, broken = c2, b2
